@@ -223,6 +223,70 @@ def gen_registry():
                 'SpaceSeparatedListOfStrings', 'SpaceSeparatedSetOfStrings', 'CommaSeparatedListOfStrings',
                 'CommaSeparatedSetOfStrings'}
 
+    # --- finite tables of conf.py validators
+    oss_tables = []
+    for cdef in sorted((n for n in ast.walk(conf) if isinstance(n, ast.ClassDef)), key=lambda c: c.lineno):
+        if any(_base_name(b) == 'OnlySomeStrings' for b in cdef.bases):
+            t = literal(find_assign(conf, 'validStrings', cls=cdef.name), cdef.name + '.validStrings')
+            if not (isinstance(t, tuple) and all(isinstance(x, str) for x in t)):
+                raise ExtractionError(cdef.name + '.validStrings: expected a tuple of strings')
+            oss_tables.append((cdef.name, list(t)))
+    def char_table(cname):
+        f = find_func(conf, 'setValue', cls=cname)
+        consts = [n.comparators[0].value for n in ast.walk(f) if isinstance(n, ast.Compare) and len(n.ops) == 1
+                  and isinstance(n.ops[0], ast.NotIn) and isinstance(n.comparators[0], ast.Constant) and isinstance(n.comparators[0].value, str)]
+        return _one(consts, cname + ".setValue `x not in '<chars>'`")
+    prefix_chars = char_table('ValidPrefixChars')
+    quotes_chars = char_table('ValidQuotes')
+
+    # --- every setValue checks before it stores (a rejected value is never in force, not even for a moment)
+    def is_error_call(n):
+        return isinstance(n, ast.Call) and isinstance(n.func, ast.Attribute) and n.func.attr == 'error'
+    def is_store_call(n):
+        return isinstance(n, ast.Call) and isinstance(n.func, ast.Attribute) and n.func.attr in ('setValue', '_setValue')
+    def has(node, pred):
+        return any(pred(n) for n in ast.walk(node))
+    def seq_ok(stmts, stored):
+        """walk statements in order; returns (ok, stored_after)"""
+        ok = True
+        for st in stmts:
+            if isinstance(st, ast.If):
+                if stored and has(st.test, is_error_call): ok = False
+                o1, s1 = seq_ok(st.body, stored); o2, s2 = seq_ok(st.orelse, stored)
+                ok = ok and o1 and o2; stored = stored or s1 or s2
+            elif isinstance(st, ast.Try):
+                o1, s1 = seq_ok(st.body, stored); ok = ok and o1
+                for h in st.handlers:
+                    oh, sh = seq_ok(h.body, stored); ok = ok and oh      # the handler runs when the body raised before storing
+                o3, s3 = seq_ok(st.orelse + st.finalbody, stored or s1); ok = ok and o3
+                stored = stored or s1 or s3
+            elif isinstance(st, (ast.For, ast.While, ast.With)):
+                o1, s1 = seq_ok(st.body, stored); ok = ok and o1; stored = stored or s1
+                if s1 and has(st, is_error_call) and isinstance(st, (ast.For, ast.While)): ok = False   # a later iteration could reject
+            else:
+                if stored and has(st, is_error_call): ok = False
+                if has(st, is_store_call): stored = True
+                if isinstance(st, ast.Assign) and any(isinstance(t, ast.Attribute) and t.attr == 'value' and isinstance(t.value, ast.Name) and t.value.id == 'self' for t in st.targets):
+                    stored = True
+        return ok, stored
+    import glob, os as _os
+    from vlib import REPO as _REPO
+    cts = []
+    srcs = [('registry', reg), ('conf', conf)]
+    for f in sorted(glob.glob(_os.path.join(_REPO, 'plugins', '*', 'config.py'))):
+        try:
+            srcs.append(('plugins.' + _os.path.basename(_os.path.dirname(f)), ast.parse(open(f, encoding='utf-8').read(), f)))
+        except SyntaxError as e:
+            raise ExtractionError('%s: %s' % (f, e))
+    for mod, tree_ in srcs:
+        for cdef in sorted((n for n in ast.walk(tree_) if isinstance(n, ast.ClassDef)), key=lambda c: c.lineno):
+            for m in cdef.body:
+                if isinstance(m, ast.FunctionDef) and m.name in ('setValue', 'set') and cdef.bases:
+                    if mod.startswith('plugins.') and not any(_base_name(b) in known or _base_name(b) in dict(cclasses) or True for b in cdef.bases):
+                        continue
+                    o, _s = seq_ok(m.body, False)
+                    cts.append(('%s.%s.%s' % (mod, cdef.name, m.name), o))
+
     # --- which methods every value class overrides (so that no class is silently skipped)
     WATCH = ('set', 'setValue', '_setValue', '__str__', 'serialize', '__call__', 'normalize', 'error', 'splitter', 'joiner')
     def overrides(tree, names):
@@ -284,5 +348,11 @@ def gen_registry():
       llist('(%s, %s)' % (lstring(n), llist(lstring(m) for m in ms)) for n, ms in c_over))
     d('conf.py value classes whose logic is inside the Lean model', 'modelledConfClasses', 'List String',
       llist(lstring(n) for n, _ in cclasses if n in MODELLED_CONF))
+    d('validStrings of the conf.py subclasses of OnlySomeStrings', 'onlySomeStringsTables', 'List (String × List Py.Str)',
+      llist('(%s, %s)' % (lstring(n), llist(lstr(x) for x in t)) for n, t in oss_tables))
+    d('conf.ValidPrefixChars: the allowed characters', 'validPrefixChars', 'Py.Str', lstr(prefix_chars))
+    d('conf.ValidQuotes: the allowed characters', 'validQuotesChars', 'Py.Str', lstr(quotes_chars))
+    d('every set/setValue of registry.py, conf.py and plugins/*/config.py: does it finish its checks (self.error) before it stores?',
+      'checkThenStore', 'List (String × Bool)', llist('(%s, %s)' % (lstring(n), 'true' if o else 'false') for n, o in cts))
     L.append('end Registry\nend Gen\n')
     write_if_changed('Registry.lean', '\n'.join(L), 'src/registry.py, src/utils/str.py, src/conf.py')
